@@ -3,6 +3,7 @@ package c04
 import (
 	"bytes"
 	"crypto/ecdsa"
+	"crypto/sha256"
 	"encoding/hex"
 	"fmt"
 	"math"
@@ -153,6 +154,7 @@ type QCase struct {
 	Pos  string `json:"pos,omitempty"`
 	DJ   int    `json:"dj,omitempty"`
 	Dq   int    `json:"delta_quarters,omitempty"`
+	M    int    `json:"tail_level,omitempty"` // tailstep: the upper-tail step found at Pr(X > j) <= 2^-M
 }
 
 var specialHashes = []string{
@@ -189,7 +191,28 @@ func genQCase(t *rapid.T) QCase {
 		b := rapid.SliceOfN(rapid.Byte(), 32, 32).Draw(t, "hash")
 		b[0] = 0xfe + b[0]&1
 		c.Hash = hex.EncodeToString(b)
-	case k < 18:
+	case k < 12:
+		// just below the top: 2^256-1-k for small k, or 1 - 2^-m (the statement quantifies over
+		// outputs up to 2^256-1; the upper-tail budget 1-t is far below float64 resolution at 1.0)
+		c.Kind = "raw"
+		top := new(big.Int).Set(maxHash)
+		if rapid.IntRange(0, 2).Draw(t, "topKind") == 0 {
+			k := rapid.SampledFrom([]int64{1, 2, 3, 4, 5, 7, 8, 15, 16, 100, 255, 256, 1000, 65535, 1 << 20, 1 << 40, 1 << 53, 1 << 62}).Draw(t, "k")
+			top.Sub(top, big.NewInt(k))
+		} else {
+			m := rapid.IntRange(20, 250).Draw(t, "m")
+			top.Sub(two256, new(big.Int).Lsh(big.NewInt(1), uint(256-m)))
+			if rapid.IntRange(0, 3).Draw(t, "topMinus") == 0 {
+				top.Sub(top, big.NewInt(1))
+			}
+		}
+		c.Hash = fmt.Sprintf("%064x", top)
+	case k < 14:
+		// next to a step of the UPPER TAIL, at a relative distance (quarters of epsRel)
+		c.Kind = "tailstep"
+		c.M = rapid.IntRange(7, 190).Draw(t, "level")
+		c.Dq = rapid.SampledFrom(deltaQuarters).Draw(t, "dq")
+	case k < 19:
 		c.Kind = "step"
 		if rapid.Bool().Draw(t, "fixedPos") {
 			c.Pos = rapid.SampledFrom(stepPositions).Draw(t, "pos")
@@ -220,6 +243,23 @@ func (c QCase) hash() (*big.Int, error) {
 		// around the switch-over constant: exactly 0.99 (float64), one float64 ulp and more away
 		d := newF().SetFloat64(float64(c.Dq) * 2.7e-17)
 		return toHash(newF().Add(const099, d)), nil
+	case "tailstep":
+		s := newScanner(c.W, c.T, c.S)
+		one := fU(1)
+		if s.one || c.M < 1 || c.M > 250 {
+			return new(big.Int).Sub(maxHash, big.NewInt(1)), nil
+		}
+		j := s.advanceTo(newF().Sub(one, newF().SetMantExp(one, -c.M)))
+		if j >= c.W {
+			return new(big.Int).Sub(maxHash, big.NewInt(1)), nil
+		}
+		tail := newF().Sub(one, s.cdf) // Pr(X > j)
+		r := float64(c.Dq) / 4 * epsRel(c.W, c.T, c.S, j)
+		if r < -0.5 {
+			r = -0.5
+		}
+		u := newF().Mul(tail, newF().SetFloat64(1+r))
+		return toHash(newF().Sub(one, u)), nil
 	case "step":
 		pos, ok := newF().SetString(c.Pos)
 		if !ok {
@@ -264,11 +304,17 @@ func runQCase(c QCase) kit.Result {
 	if got < 0 || uint64(got) > c.W {
 		return kit.Fail("seats-out-of-range", "choose(%064x, w=%d, p=%d/%d) = %d is outside [0, stake]", hb, c.W, c.T, c.S, got)
 	}
-	lo, mid, hi, steps := band(c.W, c.T, c.S, hb)
+	bi := band(c.W, c.T, c.S, hb)
+	lo, mid, hi, steps := bi.lo, bi.mid, bi.hi, bi.steps
 	tf, _ := fraction(hb).Float64()
 	if uint64(got) < lo || uint64(got) > hi {
-		return kit.Fail("not-the-quantile", "choose(hash=%064x, stake w=%d, p=%d/%d=%g) = %d, but the smallest j with F(j) >= hash/2^256 = %.18g is %d (band for +-%.3g: [%d, %d]); E[seats]=%.4g",
-			hb, c.W, c.T, c.S, p, got, tf, mid, tau(c.W, tf), lo, hi, float64(c.W)*p)
+		rule := fmt.Sprintf("absolute band +-%.3g", tau(c.W, tf))
+		if bi.relative {
+			uf, _ := newF().Sub(fU(1), fraction(hb)).Float64()
+			rule = fmt.Sprintf("mirrored branch: upper-tail budget 1-t = %.6g, relative band +-%.3g", uf, bi.eps)
+		}
+		return kit.Fail("not-the-quantile", "choose(hash=%064x, stake w=%d, p=%d/%d=%g) = %d, but the smallest j with F(j) >= hash/2^256 = %.18g is %d (accepted: [%d, %d]; %s); E[seats]=%.4g",
+			hb, c.W, c.T, c.S, p, got, tf, mid, lo, hi, rule, float64(c.W)*p)
 	}
 	labels := map[string]bool{"kind:" + c.Kind: true}
 	upper := tf > 0.99
@@ -319,6 +365,15 @@ func runQCase(c QCase) kit.Result {
 			labels["band-used:>=50%"] = true
 		}
 	}
+	if bi.relative {
+		labels["relative-upper-tail-rule"] = true
+		if new(big.Int).Sub(maxHash, hb).BitLen() <= 256-53 {
+			labels["far-upper-tail(1-t<2^-53)"] = true
+			if hi < c.W {
+				labels["far-upper-tail:quantile-below-stake"] = true
+			}
+		}
+	}
 	if c.Kind != "raw" {
 		labels["boundary-constructed"] = true
 		if c.Dq >= 8 || c.Dq <= -8 {
@@ -345,7 +400,7 @@ func runQCase(c QCase) kit.Result {
 
 var _ = kit.Register(kit.Prop[QCase]{
 	Name: "Quantile",
-	Rule: "choose(hash, w, p) through the export shim for T in {1,26,2000,4000} u [1,10^4], w in [1,10^7] (mass on 1, 2, S), max(T,w) <= S <= 10^9 (p = 1 included; expected seats log-uniform 0.01..10^4 with a cluster at 12..30), hash uniform / constants (0, 1, 2, 2^256-1, 2^256-2, ...) / constructed next to a step of the reference CDF (at 20 fixed positions from 1e-30 to 1-1e-20 or a uniform one, +-1 step, 0, 1/4, 1/2, 2, 10, 10^3, 10^6 band half-widths to either side) / around the float64 constant 0.99; oracle: 512-bit reference CDF with p = T/S exact, accept iff quantile(t-tau) <= j <= quantile(t+tau), tau = 1e-9(1+t) + 2e-15*w*ln(w+2), and 0 <= j <= w; non-trivial = exact quantile >= 1 or the upper-tail branch (t > 0.99)",
+	Rule: "choose(hash, w, p) through the export shim for T in {1,26,2000,4000} u [1,10^4], w in [1,10^7] (mass on 1, 2, S), max(T,w) <= S <= 10^9 (p = 1 included; expected seats log-uniform 0.01..10^4 with a cluster at 12..30), hash uniform / constants (0, 1, 2, 2^256-1, 2^256-2, ...) / constructed next to a step of the reference CDF (at 20 fixed positions from 1e-30 to 1-1e-20 or a uniform one, +-1 step, 0, 1/4, 1/2, 2, 10, 10^3, 10^6 band half-widths to either side) / around the float64 constant 0.99; / just below the top (2^256-1-k, 1-2^-m for m in 20..250) / next to an upper-tail step at level 2^-7..2^-190 at relative distances; oracle: 512-bit reference CDF with p = T/S exact, accept iff quantile(t-tau) <= j <= quantile(t+tau), tau = 1e-9(1+t) + 2e-15*w*ln(w+2), and in the mirrored branch (t > 0.99) also iff the upper-tail budget u = 1-t explains j up to a RELATIVE eps = 2e-9 + 4e-15*w*ln(w+2) + 4(j+2)2^-53/p (u read as a fraction of 2^256 or of 2^256-1), and 0 <= j <= w; non-trivial = exact quantile >= 1 or the upper-tail branch (t > 0.99)",
 	Gen:  genQCase, Run: runQCase,
 	Quick: 12000, Thorough: 500000, Chunk: 2000, MinNonTrivialPct: 30,
 })
@@ -592,6 +647,68 @@ func genVCase(t *rapid.T) VCase {
 	return c
 }
 
+type altProof struct {
+	name  string
+	proof []byte
+}
+
+var (
+	curveN = ycrypto.S256().Params().N
+	curveP = ycrypto.S256().Params().P
+)
+
+func cat(parts ...[]byte) []byte {
+	var out []byte
+	for _, p := range parts {
+		out = append(out, p...)
+	}
+	return out
+}
+
+func pad(b []byte, n int) []byte {
+	if len(b) >= n {
+		return b
+	}
+	return append(make([]byte, n-len(b)), b...)
+}
+
+// alternateEncodings re-encodes an honest 129-byte proof s(32) || t(32) || 04 || X || Y
+// in every way a lenient parser could also understand.
+func alternateEncodings(proof []byte) []altProof {
+	if len(proof) != 129 || proof[64] != 4 {
+		return nil
+	}
+	s, t, X, Y := proof[0:32], proof[32:64], proof[65:97], proof[97:129]
+	pt := proof[64:]
+	yBig := new(big.Int).SetBytes(Y)
+	par := byte(2 + yBig.Bit(0))
+	negY := pad(new(big.Int).Sub(curveP, yBig).Bytes(), 32)
+	sN := new(big.Int).Add(new(big.Int).SetBytes(s), curveN).Bytes() // 33 bytes unless s is tiny
+	tN := new(big.Int).Add(new(big.Int).SetBytes(t), curveN).Bytes()
+	alts := []altProof{
+		{"VRF point compressed (parity prefix)", cat(s, t, []byte{par}, X)},
+		{"VRF point compressed, other parity", cat(s, t, []byte{par ^ 1}, X)},
+		{"VRF point compressed, zero-padded to 129 bytes", cat(s, t, []byte{par}, X, make([]byte, 32))},
+		{"VRF point with y negated", cat(s, t, []byte{4}, X, negY)},
+		{"VRF point hybrid prefix 06/07", cat(s, t, []byte{4 + par}, X, Y)},
+		{"VRF point hybrid prefix, other parity", cat(s, t, []byte{4 + (par ^ 1)}, X, Y)},
+		{"VRF point prefix 00", cat(s, t, []byte{0}, X, Y)},
+		{"VRF point without prefix", cat(s, t, X, Y)},
+		{"s+N", cat(pad(sN, 32), t, pt)},
+		{"t+N", cat(s, pad(tN, 32), pt)},
+		{"s and t zero-padded to 33 bytes", cat([]byte{0}, s, []byte{0}, t, pt)},
+		{"leading zero byte", cat([]byte{0}, proof)},
+		{"trailing zero byte", cat(proof, []byte{0})},
+		{"trailing copy of the point", cat(proof, pt)},
+		{"zero byte between t and the point", cat(s, t, []byte{0}, pt)},
+		{"s without its first byte (shifted fields)", cat(s[1:], t, pt, []byte{0})},
+		{"s and t swapped", cat(t, s, pt)},
+		{"uncompressed point twice compressed length (97 bytes of the honest proof)", proof[:97]},
+	}
+	// s+N / t+N that still fit 32 bytes keep the length: only then are they equal-length variants
+	return alts
+}
+
 func scaled(x uint64, mode int) uint64 {
 	switch mode {
 	case 0:
@@ -638,7 +755,8 @@ func runVCase(c VCase) kit.Result {
 		return kit.Fail("sortition-failed", "VrfSortition returned a %d-byte proof", len(proof))
 	}
 	// the seat count of the issued credential is the quantile of the VRF output
-	lo, mid, hi, _ := band(c.W, c.T, c.S, new(big.Int).SetBytes(value[:]))
+	bv := band(c.W, c.T, c.S, new(big.Int).SetBytes(value[:]))
+	lo, mid, hi := bv.lo, bv.mid, bv.hi
 	if uint64(j) > c.W || uint64(j) < lo || uint64(j) > hi {
 		return kit.Fail("not-the-quantile", "VrfSortition(w=%d, p=%d/%d) gives %d seats for VRF output %x; exact quantile %d (band [%d,%d])", c.W, c.T, c.S, j, value, mid, lo, hi)
 	}
@@ -687,7 +805,8 @@ func runVCase(c VCase) kit.Result {
 			if T2 < 1 || W2 < 1 || S2 < T2 || S2 < W2 || W2 > 10000000 || S2 > 4000000000 || T2 > 100000 {
 				return
 			}
-			lo2, _, hi2, _ := band(W2, T2, S2, hv)
+			b2 := band(W2, T2, S2, hv)
+			lo2, hi2 := b2.lo, b2.hi
 			if uint64(j) >= lo2 && uint64(j) <= hi2 {
 				labels["param-change-keeps-quantile:"+name] = true
 				return
@@ -719,6 +838,50 @@ func runVCase(c VCase) kit.Result {
 	} else {
 		labels["seats=0"] = true
 	}
+	// VRF uniqueness: whatever other ENCODING of the honest proof is offered for the same
+	// (key, seed, index, step), it is rejected or yields exactly the honest output and
+	// seat count (one key and message have one output).
+	m := ucon.MakeM(seed, c.Role, c.Index)
+	for _, alt := range alternateEncodings(proof) {
+		v, err := pk.ProofToHash(m, alt.proof)
+		if err == nil && common.Hash(v) != value {
+			return kit.Fail("vrf-output-not-unique", "ProofToHash accepts a re-encoded proof (%s, %d bytes) of the honest credential and returns a DIFFERENT output %x (honest output %x): one (key, message) has two verifiable VRF outputs",
+				alt.name, len(alt.proof), v, value)
+		}
+		if err == nil {
+			labels["alternate-encoding-accepted-same-value"] = true
+		}
+		// seat counts: the issued one behaves as with the honest proof or is rejected; any
+		// other one - in particular the one the raw bytes of this encoding would give - is rejected
+		subs := []uint32{j + 1, j - 1}
+		if len(alt.proof) > 64 {
+			raw := sha256.Sum256(alt.proof[64:])
+			jr64 := ucon.VerifChoose(common.Hash(raw), w, pFloat(c.T, c.S))
+			if jr64 < 0 || uint64(jr64) > c.W {
+				return kit.Fail("seats-out-of-range", "choose(%x, w=%d, p=%d/%d) = %d is outside [0, stake]", raw, c.W, c.T, c.S, jr64)
+			}
+			jr := uint32(jr64)
+			subs = append(subs, jr)
+			if common.Hash(raw) != value {
+				rp := ucon.VrfComputePriority(common.Hash(raw), jr)
+				if ok, e := ucon.VrfVerifyPriority(pk, seed, c.Index, c.Role, alt.proof, rp, jr, c.T, w, S); ok && e == nil && !(jr == 0 && c.NoZeroSeatPriority) {
+					return kit.Fail("vrf-output-not-unique", "VrfVerifyPriority accepts a re-encoded proof (%s) with the priority and %d seats of a different VRF output (issued: %d seats)", alt.name, jr, j)
+				}
+			}
+		}
+		for _, sub := range subs {
+			if sub == j {
+				continue
+			}
+			if verify(pk, seed, c.Index, c.Role, alt.proof, sub, c.T, w, S) {
+				return kit.Fail("vrf-output-not-unique", "VrfVerifySortition accepts a re-encoded proof (%s, %d bytes) of the credential issued for %d seats with %d seats", alt.name, len(alt.proof), j, sub)
+			}
+		}
+		if got := verify(pk, seed, c.Index, c.Role, alt.proof, j, c.T, w, S); got && (err != nil || j == 0) {
+			return kit.Fail("vrf-output-not-unique", "VrfVerifySortition accepts a re-encoded proof (%s) that ProofToHash rejects (or with 0 seats)", alt.name)
+		}
+	}
+	labels["alternate-encodings-offered"] = true
 	for _, p := range perts {
 		if p.ok {
 			return kit.Fail("credential-not-bound", "VrfVerifySortition accepts the credential (key %s.., seed %s.., index %d, step %d, %d seats, T=%d w=%d S=%d) after changing: %s",
@@ -789,7 +952,7 @@ func runVCase(c VCase) kit.Result {
 
 var _ = kit.Register(kit.Prop[VCase]{
 	Name: "Credentials",
-	Rule: "a random key runs VrfSortition on a random (seed, round index, step, T, w, S) (expected seats >= 2 in 3/4 of the cases, around 1 otherwise); the seat count must be the reference quantile of the VRF output; VrfVerifySortition with identical inputs is true iff seats >= 1 and false after each single change (other key, one seed bit, index xor/+1/-1, step, index<->step, seats+-1, T/w/S scaled or +1 when that moves the reference quantile, one corrupted proof byte unless it still proves the same value, truncated proof); VrfComputePriority equals the harness's max keccak(output||i), i=0..j; VrfVerifyPriority accepts it iff seats >= 1 and rejects any other seat's hash, a seat beyond j, seats+-1 with their own maxima, an unrelated priority, other key / index / step / seed bit; non-trivial = the credential won at least one seat (so every perturbation is asked)",
+	Rule: "a random key runs VrfSortition on a random (seed, round index, step, T, w, S) (expected seats >= 2 in 3/4 of the cases, around 1 otherwise); the seat count must be the reference quantile of the VRF output; VrfVerifySortition with identical inputs is true iff seats >= 1 and false after each single change (other key, one seed bit, index xor/+1/-1, step, index<->step, seats+-1, T/w/S scaled or +1 when that moves the reference quantile, one corrupted proof byte unless it still proves the same value, truncated proof); 18 alternate ENCODINGS of the honest proof (VRF point compressed either parity / y negated / hybrid or zero prefix / no prefix, s+N, t+N, zero-padded or shifted fields, leading / trailing bytes) must each be rejected or yield exactly the honest output, and must never verify for another seat count (VRF uniqueness); VrfComputePriority equals the harness's max keccak(output||i), i=0..j; VrfVerifyPriority accepts it iff seats >= 1 and rejects any other seat's hash, a seat beyond j, seats+-1 with their own maxima, an unrelated priority, other key / index / step / seed bit; non-trivial = the credential won at least one seat (so every perturbation is asked)",
 	Gen:  genVCase, Run: runVCase,
 	Quick: 250, Thorough: 5000, Chunk: 125, MinNonTrivialPct: 50,
 })
